@@ -127,14 +127,43 @@ type Proxy struct {
 	ops      []string       // op order trace (for interleaving hashes)
 	TraceOps bool
 
-	errMu     sync.Mutex
-	injectors []func(error) // live watch injectors
+	errMu      sync.Mutex
+	deliveries []Delivery
+	injectors  []func(error) // live watch injectors
 	ctxs      []context.Context //nolint:containedctx
 }
 
 // New creates a proxy.
 func New(inner state.CoreState, rng *rand.Rand, maxDelay int) *Proxy {
 	return &Proxy{Inner: inner, shadow: map[Key]*Snap{}, rng: rng, MaxDelay: maxDelay, Tick: time.Millisecond, failNext: map[string]int{}}
+}
+
+// Delivery records when a watch event was handed to its consumer by the proxy.
+type Delivery struct {
+	Key  Key
+	At   int64 // (virtual) ns
+	Type string
+}
+
+// Deliveries returns the events handed to watch consumers so far.
+func (p *Proxy) Deliveries() []Delivery {
+	p.errMu.Lock()
+	defer p.errMu.Unlock()
+
+	return slices.Clone(p.deliveries)
+}
+
+func (p *Proxy) delivered(evs ...state.Event) {
+	now := time.Now().UnixNano()
+
+	p.errMu.Lock()
+	defer p.errMu.Unlock()
+
+	for _, ev := range evs {
+		if ev.Resource != nil && (ev.Type == state.Created || ev.Type == state.Updated || ev.Type == state.Destroyed) {
+			p.deliveries = append(p.deliveries, Delivery{Key: KeyOf(ev.Resource.Metadata()), At: now, Type: ev.Type.String()})
+		}
+	}
 }
 
 // ErrInjected is returned by injected write failures.
@@ -384,7 +413,7 @@ func (p *Proxy) LiveWatches() int {
 	return n
 }
 
-func forward[T any](p *Proxy, ctx context.Context, in <-chan T, out chan<- T, mkErr func(error) T) {
+func forward[T any](p *Proxy, ctx context.Context, in <-chan T, out chan<- T, mkErr func(error) T, done func(T)) {
 	injected := make(chan error, 1)
 
 	p.errMu.Lock()
@@ -418,6 +447,7 @@ func forward[T any](p *Proxy, ctx context.Context, in <-chan T, out chan<- T, mk
 
 			select {
 			case out <- v:
+				done(v)
 			case <-ctx.Done():
 				return
 			}
@@ -442,7 +472,7 @@ func (p *Proxy) Watch(ctx context.Context, ptr resource.Pointer, ch chan<- state
 	}
 
 	p.recordWatch(w)
-	forward(p, ctx, in, ch, func(e error) state.Event { return state.Event{Type: state.Errored, Error: e} })
+	forward(p, ctx, in, ch, func(e error) state.Event { return state.Event{Type: state.Errored, Error: e} }, func(ev state.Event) { p.delivered(ev) })
 
 	return nil
 }
@@ -464,7 +494,7 @@ func (p *Proxy) WatchKind(ctx context.Context, kind resource.Kind, ch chan<- sta
 	}
 
 	p.recordWatch(w)
-	forward(p, ctx, in, ch, func(e error) state.Event { return state.Event{Type: state.Errored, Error: e} })
+	forward(p, ctx, in, ch, func(e error) state.Event { return state.Event{Type: state.Errored, Error: e} }, func(ev state.Event) { p.delivered(ev) })
 
 	return nil
 }
@@ -486,7 +516,7 @@ func (p *Proxy) WatchKindAggregated(ctx context.Context, kind resource.Kind, ch 
 	}
 
 	p.recordWatch(w)
-	forward(p, ctx, in, ch, func(e error) []state.Event { return []state.Event{{Type: state.Errored, Error: e}} })
+	forward(p, ctx, in, ch, func(e error) []state.Event { return []state.Event{{Type: state.Errored, Error: e}} }, func(evs []state.Event) { p.delivered(evs...) })
 
 	return nil
 }
